@@ -53,9 +53,16 @@ def extract_fn(src, name):
     """source text of `fn name ... { body }` (first match outside tests)"""
     m = None
     for cand in re.finditer(r'\bfn\s+%s\s*(<[^>]*>)?\s*\(' % re.escape(name), src):
-        b = src.find('{', cand.end())
-        sc = src.find(';', cand.end())
-        if b >= 0 and (sc < 0 or b < sc):
+        # skip the parameter list (it may contain `;` inside array types), then look for `{` before `;`
+        depth = 1
+        k = cand.end()
+        while depth and k < len(src):
+            depth += (src[k] == '(') - (src[k] == ')')
+            k += 1
+        b = src.find('{', k)
+        sc = src.find(';', k)
+        # a return type like `-> [u64; N]` also contains `;`: accept when the text up to `{` has balanced brackets
+        if b >= 0 and (sc < 0 or b < sc or src[k:b].count('[') == src[k:b].count(']') and src[k:b].count('[') > 0 and ';' not in re.sub(r'\[[^\]]*\]', '', src[k:b])):
             m = cand
             break
     if not m:
@@ -140,10 +147,13 @@ class Parser:
             self.next()
         self.expect('fn')
         name = self.next()[1]
+        consts = []
         if self.accept('<'):
             depth = 1
             while depth:
                 v = self.next()[1]
+                if v == 'const' and depth == 1:
+                    consts.append(self.peek()[1])
                 depth += (v == '<') - (v == '>')
         self.expect('(')
         params = []
@@ -162,7 +172,7 @@ class Parser:
         if self.accept('->'):
             ret = self.parse_type()
         body = self.parse_block()
-        return {'name': name, 'params': params, 'ret': ret, 'body': body}
+        return {'name': name, 'params': params, 'ret': ret, 'body': body, 'consts': consts}
 
     # statements --------------------------------------------------------------------------------
     def parse_block(self):
@@ -236,12 +246,14 @@ class Parser:
             return ('while', c, b)
         if v == 'for':
             self.next()
-            var = self.next()[1]
+            pat = self.parse_pat()
+            var = pat[1] if pat[0] == 'pid' else pat
             self.expect('in')
             rev = False
-            # iterator over a slice: `for x in xs`, `for x in xs.iter_mut()`, `for x in xs.iter_mut().rev()`
+            # iterator over a slice: `for x in xs`, `for x in xs.iter_mut()`, `for x in xs.iter_mut().rev()`,
+            # `for (x, (y, z)) in zip(&mut xs, zip(ys, zs))`
             save = self.i
-            if self.peek()[0] == 'id' and self.peek(1)[1] in ('{', '.'):
+            if self.peek()[0] == 'id' and (self.peek(1)[1] in ('{', '.') or (self.peek()[1] == 'zip' and self.peek(1)[1] == '(')):
                 it = self.parse_postfix()
                 if self.peek()[1] == '{':
                     b = self.parse_block()
@@ -249,6 +261,8 @@ class Parser:
                 self.i = save
             paren = self.accept('(')
             lo = self.parse_expr(len(self.PREC) - 2)     # up to additive: `..` is not an operator here
+            if paren and self.accept(')'):                # `(i + 1)..n`: the parenthesis was around the lower bound only
+                paren = False
             self.expect('..')
             hi = self.parse_expr(len(self.PREC) - 2)
             if paren:
@@ -457,6 +471,8 @@ class Emitter:
                     return lean_ident(n), env[n]
                 if getattr(self, 'uint_mode', False) and n in ('BITS', 'LIMBS'):
                     return n, 'usize'
+                if n in getattr(self, 'const_generics', []):
+                    return n, 'usize'
                 if n in self.consts:
                     return self.consts[n]
                 raise TranslateError('unknown variable %s' % n)
@@ -527,6 +543,14 @@ class Emitter:
             return self.if_expr(e, env, exp)
         if k == 'block':
             return self.block(e, env, exp)
+        if k == 'minlen':
+            sa, _ = self.expr(e[1], env, 'usize')
+            sb, _ = self.expr(e[2], env, 'usize')
+            return '(min %s %s)' % (sa, sb), 'usize'
+        if k == 'repeat':
+            se, te = self.expr(e[1], env, 'u64')
+            sn, _ = self.expr(e[2], env, 'usize')
+            return '(List.replicate %s %s)' % (sn, se), ('array', te, None)
         if k == 'array':
             parts = [self.expr(x, env, exp[1] if exp and exp[0] == 'array' else None) for x in e[1]]
             return '[' + ', '.join(p[0] for p in parts) + ']', ('array', parts[0][1] if parts else 'u64', len(parts))
@@ -588,6 +612,10 @@ class Emitter:
             if isinstance(sty, tuple) and sty[0] == 'tuple' and (name == 'Self' or name in getattr(self, 'structs', {})):
                 parts = [self.expr(a, env, t)[0] for a, t in zip(args, sty[1])]
                 return '(' + ', '.join(parts) + ')', sty
+            if name in getattr(self, 'externs', {}):
+                tmpl, rt = self.externs[name]
+                ss = [self.expr(a, env, None)[0] for a in args]
+                return '(' + tmpl % tuple(ss) + ')', rt
             if name in self.fns:
                 return self.call_fn(self.fns[name], args, env)
             raise TranslateError('call to untranslated function %s' % name)
@@ -608,6 +636,12 @@ class Emitter:
         ln, pts, rt = sig[0], sig[1], sig[2]
         fuel = len(sig) > 3 and sig[3]
         ss = [self.expr(a, env, self.ty(pt))[0] for a, pt in zip(args, pts)]
+        consts = sig[4] if len(sig) > 4 else []
+        for c in consts:
+            # a const generic of the callee is taken to be the caller's parameter of the same name
+            if c not in (getattr(self, 'const_generics', None) or []):
+                raise TranslateError('cannot infer const generic %s of %s' % (c, ln))
+        ss = list(consts) + ss
         if fuel:
             self.uses_fuel = True
             ss = ['fuel'] + ss
@@ -616,7 +650,7 @@ class Emitter:
     def mcall(self, e, env, exp):
         _, recv, name, args = e
         sr, tr = self.expr(recv, env, exp)
-        if tr in WIDTH:
+        if isinstance(tr, str) and tr in WIDTH:
             w = WIDTH[tr]
             if name in ('wrapping_add', 'wrapping_sub', 'wrapping_mul'):
                 sb, _ = self.expr(args[0], env, tr)
@@ -639,7 +673,7 @@ class Emitter:
                 sig = self.fns[key]
                 ss = [sr] + [self.expr(a, env, self.ty(pt))[0] for a, pt in zip(args, sig[1][1:])]
                 return '(%s %s)' % (sig[0], ' '.join(ss)), sig[2]
-        if tr in ('slice', 'mutslice', 'uint') and name == 'len':
+        if (tr in ('slice', 'mutslice', 'uint') or (isinstance(tr, tuple) and tr[0] == 'array')) and name == 'len':
             return '(%s).length' % sr, 'usize'
         if tr == 'uint' and ('Uint::' + name) in self.fns:
             sig = self.fns['Uint::' + name]
@@ -680,11 +714,10 @@ class Emitter:
                     if n not in local and n not in out:
                         out.append(n)
             elif s[0] == 'foreach':
-                it = s[2]
-                while it[0] == 'mcall':
-                    it = it[1]
+                pairs, _ = self.foreach_pairs(s[1], s[2])
+                m = dict(pairs)
                 for n in self.assigned(s[3][1], declared):
-                    n2 = it[1][0] if (n == s[1] and it[0] == 'path') else n
+                    n2 = m.get(n, n)
                     if n2 not in local and n2 not in out:
                         out.append(n2)
             elif s[0] == 'for':
@@ -820,6 +853,28 @@ class Emitter:
             return any(self.fn_return_in(x) for x in node)
         return False
 
+    def foreach_pairs(self, pat, it):
+        """`for <pat> in <iterator>` over slices/arrays, `zip`s of them, with `.iter()`, `.iter_mut()`, `.rev()`:
+        -> ([(pattern variable, array variable)], reversed?)"""
+        rev = False
+        while it[0] == 'mcall' and it[2] in ('iter', 'iter_mut', 'rev', 'into_iter') and not it[3]:
+            if it[2] == 'rev':
+                rev = not rev
+            it = it[1]
+        if isinstance(pat, str):
+            pat = ('pid', pat)
+        if pat[0] == 'pid':
+            if not (it[0] == 'path' and len(it[1]) == 1):
+                raise TranslateError('unsupported iterator expression')
+            return [(pat[1], it[1][0])], rev
+        if pat[0] == 'ptuple' and len(pat[1]) == 2 and it[0] == 'call' and it[1] == ['zip'] and len(it[2]) == 2:
+            a, ra = self.foreach_pairs(pat[1][0], it[2][0])
+            b, rb = self.foreach_pairs(pat[1][1], it[2][1])
+            if ra or rb:
+                raise TranslateError('reversed iterator inside zip')
+            return a + b, rev
+        raise TranslateError('unsupported iterator pattern')
+
     def loop_stmt(self, s, rest, env, exp, result):
         """`while c { body }` / `loop { body }` over scalar state: a NON-recursive step definition
         `<fn>_step<k> ctx st : state × Bool` (new state, continue?) iterated by the fuelled `Rs.loop`; the state is the
@@ -851,6 +906,12 @@ class Emitter:
         if getattr(self, 'uint_mode', False):
             params = '(BITS LIMBS : Nat) ' + params
             args = 'BITS LIMBS ' + args
+        if getattr(self, 'const_generics', None):
+            params = '(%s : Nat) ' % ' '.join(self.const_generics) + params
+            args = ' '.join(self.const_generics) + ' ' + args
+        if re.search(r'\bfuel\b', sbody):      # nested loop / fuelled callee inside the body
+            params = '(fuel : Nat) ' + params
+            args = 'fuel ' + args
         aux = ('def %s %s (st : %s) : (%s) × Bool :=\n%s  if %s then (\n  %s)\n  else (st, false)\n'
                % (name, params, full, full, projs, sc, sbody))
         self.aux.append(aux)
@@ -884,28 +945,29 @@ class Emitter:
         k = s[0]
         if k == 'foreach':
             _, var, it, body = s
-            rev = False
-            while it[0] == 'mcall' and it[2] in ('iter', 'iter_mut', 'rev') and not it[3]:
-                if it[2] == 'rev':
-                    rev = not rev
-                it = it[1]
-            if not (it[0] == 'path' and len(it[1]) == 1 and env.get(it[1][0]) in ('slice', 'mutslice')):
-                raise TranslateError('unsupported iterator expression')
-            ys = it[1][0]
+            pairs, rev = self.foreach_pairs(var, it)
+            for _, ys in pairs:
+                ity = env.get(ys)
+                if not (ity in ('slice', 'mutslice') or (isinstance(ity, tuple) and ity[0] == 'array')):
+                    raise TranslateError('unsupported iterator expression')
             self.tmp = getattr(self, 'tmp', 0) + 1
             idx = 'it%d' % self.tmp
-            elem = ('index', ('path', [ys]), ('path', [idx]))
+            elems = dict((v, ('index', ('path', [ys]), ('path', [idx]))) for v, ys in pairs)
 
             def subst(node):
                 if isinstance(node, tuple):
-                    if node and node[0] == 'path' and node[1] == [var]:
-                        return elem
+                    if node and node[0] == 'path' and len(node[1]) == 1 and node[1][0] in elems:
+                        return elems[node[1][0]]
                     return tuple(subst(x) for x in node)
                 if isinstance(node, list):
                     return [subst(x) for x in node]
                 return node
             nb = ('block', subst(body[1]))
-            return self.stmts([('for', idx, ('lit', 0, 'usize'), ('mcall', ('path', [ys]), 'len', []), rev, nb)] + rest,
+            # a zip stops at the shortest operand
+            hi = ('mcall', ('path', [pairs[0][1]]), 'len', [])
+            for _, ys in pairs[1:]:
+                hi = ('minlen', hi, ('mcall', ('path', [ys]), 'len', []))
+            return self.stmts([('for', idx, ('lit', 0, 'usize'), hi, rev, nb)] + rest,
                               env, exp, result)
         if k == 'for':
             # for i in lo..hi { body }  ==>  let hi' = hi; let mut i = lo; while i < hi' { body; i += 1 }
@@ -1054,6 +1116,7 @@ class Emitter:
         rt = self.ty_deep(fn['ret'])
         self.inner_rt = rt
         self.mut_ret = None
+        self.const_generics = list(fn.get('consts', []))
         muts = [n for n, t in fn['params'] if self.ty(t) == 'mutslice']
         if muts:
             # `&mut [u64]` parameters: the function returns their final contents in front of its own result
@@ -1073,6 +1136,8 @@ class Emitter:
             out += a + '\n'
         if getattr(self, 'uint_mode', False):
             params = ['(BITS LIMBS : Nat)'] + params
+        if self.const_generics:
+            params = ['(%s : Nat)' % ' '.join(self.const_generics)] + params
         if self.uses_fuel:
             params = ['(fuel : Nat)'] + params
         out += 'def %s %s : %s :=\n  %s\n' % (lean_name, ' '.join(params), self.lean_ty(rt), body)
@@ -1087,7 +1152,7 @@ class Emitter:
     def lean_ty(self, t):
         if t == 'bool':
             return 'Bool'
-        if t in ('uint', 'slice', 'mutslice'):
+        if t in ('uint', 'slice', 'mutslice') or (isinstance(t, tuple) and t[0] == 'array'):
             return 'List Nat'
         if isinstance(t, tuple) and t[0] == 'tuple':
             if not t[1]:
@@ -1136,13 +1201,15 @@ def translate(items, namespace='Ruint.Gen', imports=('Ruint.Gen.Prelude',), fns=
             fn = Parser(tokenize(text)).parse_fn()
             em = Emitter(fns, it.get('self_ty'), structs=it.get('structs'), gconsts=it.get('gconsts'), self_name=it.get('self_name'))
             em.uint_mode = bool(it.get('uint'))
+            em.externs = it.get('externs', {})
             code = em.function(fn, it['lean'])
             key = it.get('key', it['fn'])
-            fns[key] = (it['lean'], [em.ty(t) for _, t in fn['params']], em.ty_deep(fn['ret']), em.uses_fuel)
+            fns[key] = (it['lean'], [em.ty(t) for _, t in fn['params']], em.ty_deep(fn['ret']), em.uses_fuel,
+                        list(fn.get('consts', [])))
             for alias in it.get('aliases', []):
                 fns[alias] = fns[key]
             out.append('/-- `%s` (%s) -/\n%s' % (it['fn'], it['file'].split('/src/')[-1], code))
-        except (TranslateError, IndexError, KeyError, ValueError) as ex:
+        except (TranslateError, IndexError, KeyError, ValueError, TypeError, AttributeError) as ex:
             errors.append('%s: %s' % (it['fn'], ex))
     out.append('end %s\n' % namespace)
     return '\n'.join(out), errors
@@ -1220,11 +1287,20 @@ def kernel_items(repo):
             {'file': a + 'shift.rs', 'fn': 'shift_right_small', 'lean': 'shift_right_small', 'group': 'kernels'}]
 
 
+def redc_loop_items(repo):
+    f = repo + '/src/algorithms/mul_redc.rs'
+    return [{'file': f, 'fn': 'sub', 'lean': 'redc_sub', 'group': 'redcloops'},
+            {'file': f, 'fn': 'reduce1_carry', 'lean': 'reduce1_carry', 'group': 'redcloops'},
+            {'file': f, 'fn': 'mul_redc', 'lean': 'mul_redc', 'group': 'redcloops'},
+            {'file': f, 'fn': 'square_redc', 'lean': 'square_redc', 'group': 'redcloops'}]
+
+
 GROUPS = [('core', 'Words', ('Ruint.Gen.Prelude',)),
           ('kernels', 'WordsKernels', ('Ruint.Gen.Words',)),
           ('uint', 'WordsUint', ('Ruint.Gen.Words',)),
           ('lehmer', 'WordsLehmer', ('Ruint.Gen.Prelude',)),
           ('redc', 'WordsRedc', ('Ruint.Gen.Words',)),
+          ('redcloops', 'WordsRedcLoops', ('Ruint.Gen.WordsRedc',)),
           ('div', 'WordsDiv', ('Ruint.Gen.Words',))]
 
 
@@ -1236,6 +1312,7 @@ def translate_all(repo):
     items = default_items(repo)
     items += uint_items(repo)
     items += kernel_items(repo)
+    items += redc_loop_items(repo)
     try:
         items += lehmer_items(repo)
     except (OSError, IOError) as ex:
